@@ -201,6 +201,14 @@ def protocol_run(rng, S, t, n, exhaustive_subset=None, big_idents=None):
                 lines.append(T + "assemble %d %s %s %s %s %s" % (t, gpk_b.hex(), ",".join(S.enc_sig_share(x).hex() for x in lst), cl_b.hex(), ",".join(x.hex() for x in spks_b), hx(msg)))
                 exp.append(("OK S " + S.enc_signature(r2).hex()) if r2 is not None else "OK N")
             cl.add("corrupt-sig-share")
+        elif m == 1 and rng.randrange(2):
+            # identifier of the share altered (value intact), checked against the real signer's key
+            others = [shares[j]["ident"] for j in signers if j != i] + [shares[i]["ident"] + 1, 1, 65535]
+            nid = rng.choice([x for x in others if x != shares[i]["ident"]])
+            bad = S.enc_sig_share((nid, zs[i]))
+            ok = S.verify_share(spks[i], nid, zs[i], chosen, gpk, msg)
+            lines.append(T + "verify_share %s %s %s %s %s" % (spks_b[i].hex(), bad.hex(), cl_b.hex(), gpk_b.hex(), hx(msg))); exp.append("OK " + ("T" if ok else "F"))
+            cl.add("share-ident-altered")
         elif m == 1:
             # share attributed to another signer
             j = rng.choice(signers)
@@ -352,7 +360,7 @@ def main(argv):
         rep.merge(m)
         req = [s + ":run" for s in F.SUITES] + [s + ":split-big" for s in F.SUITES]
         req += ["honest-run", "duplicate-commitment", "corrupt-sig-share", "corrupt-commitment", "corrupt-signature", "corrupt-share-secret", "corrupt-vss",
-                "share-wrong-signer", "other-message", "wire-roundtrip", "rfc8032-interop", "signer-not-in-list", "other-group-key", "identifiers>255"]
+                "share-wrong-signer", "share-ident-altered", "other-message", "wire-roundtrip", "rfc8032-interop", "signer-not-in-list", "other-group-key", "identifiers>255"]
         rep.require(*req)
     except Inconclusive as e:
         rep.incon.append(str(e))
